@@ -1,6 +1,6 @@
 """C15 - tree flatten/rebuild are inverse; tree_update is a non-destructive deep merge.
 
-Protocol (model name tree, see lean/PygModel/TreeDriver.lean).  Trees travel as nested `(D ..)` values; the runner builds
+Protocol (model name tree, see lean/PygModel/TreeDriver.lean; op `updateh` runs the heap model PygModel/TreeHeap.lean).  Trees travel as nested `(D ..)` values; the runner builds
 them in a chosen class (dict / Dict / dictattr), takes deep snapshots of both operands before a call and re-reads them
 afterwards (`mutated ...` replies), and checks `type(result)`.
 tree_to_table / table_to_tree are not modelled in Lean; their inverse law is checked on the implementation only (laws).
@@ -101,12 +101,13 @@ def generate(rng, tier):
         ig = rng.choice([[], [], [], [None], [None, 'x']])
         cls = rng.choice([0, 1, 2])
         tag = 'update-self' if u is t else 'update-empty' if not u else 'update-ignore' if ig else 'update'
-        yield dict(tag=tag, lines=['(tree update %s %s %s %d)' % (enc(t), enc(u), enc(ig), cls)])
+        yield dict(tag=tag, lines=['(tree update %s %s %s %d)' % (enc(t), enc(u), enc(ig), cls),
+                                   '(tree updateh %s %s %s %d)' % (enc(t), enc(u), enc(ig), cls)])   # the heap model
     n = 150 if tier == 'quick' else 3000
     for _ in range(n):
         t = rand_tree(rng, 3, allow_empty=True)
         u = rand_tree(rng, 2, allow_empty=True)
-        yield dict(tag='empty-branches', lines=['(tree items %s)' % enc(t), '(tree update %s %s (L) 0)' % (enc(t), enc(u))])
+        yield dict(tag='empty-branches', lines=['(tree items %s)' % enc(t), '(tree update %s %s (L) 0)' % (enc(t), enc(u)), '(tree updateh %s %s (L) 0)' % (enc(t), enc(u))])
 
 
 def _get(t, p):
@@ -148,7 +149,7 @@ def run_line(state, sx):
     if op == 'get':
         t = proto.dec(args[0])
         return 'ok ' + enc(_plain(tree_getitem(t, list(proto.dec(args[1])))))
-    if op == 'update':
+    if op in ('update', 'updateh'):       # updateh: same call; the model side runs the heap machine
         cls = int(args[3]) if len(args) > 3 else 0
         t, u, ig = build(proto.dec(args[0]), cls), build(proto.dec(args[1]), cls), proto.dec(args[2])
         st, su = snapshot(t), snapshot(u)
